@@ -187,14 +187,7 @@ def c09_mtx(ctx, case):
     m = case["m"]
     N = len(x)
     meth = case["method"]
-    if case["as_list"]:
-        if np.iscomplexobj(x):
-            ctx.exclude("list input of complex values (dtype detection on arrays only)")
-            arg = x
-        else:
-            arg = x.tolist()
-    else:
-        arg = x
+    arg = x.tolist() if case["as_list"] else x
     X = np.asarray(spectrum.corrmtx(arg, m, meth))
     full = np.zeros((N + m, m + 1), dtype=complex)
     for i in range(N + m):
